@@ -13,7 +13,7 @@ StartJid == IF \E k \in 1..Len(hist') : hist'[k].a = "Reconfigure"
             ELSE jidcfg'
 
 EmitBehaviour ==
-    CSVWrite("%1$s", <<ToJson([gen |-> gen', jidcfg |-> StartJid, steps |-> hist'])>>, IOEnv.QXV_GEN)
+    CSVWrite("%1$s", <<ToJson([gen |-> gen', estab |-> estab', jidcfg |-> StartJid, steps |-> hist'])>>, IOEnv.QXV_GEN)
 
 EmitReconfBehaviour == ReconfShape /\ EmitBehaviour
 =============================================================================
